@@ -231,6 +231,16 @@ Byte:
 			// Ignoring error because this scanner cannot produce errors.
 			advance, _, _ := textseg.ScanGraphemeClusters(buf[i:], true)
 
+			// A grapheme cluster can extend over a following quote or
+			// backslash (for example after a "prepend" character such as
+			// U+0600), but those bytes are always significant to us.
+			for j := 1; j < advance; j++ {
+				if c := buf[i+j]; c == '"' || c == '\\' {
+					advance = j
+					break
+				}
+			}
+
 			p.Pos.Byte += advance
 			p.Pos.Column++
 			i += advance
